@@ -40,6 +40,12 @@ class C19(Prop):
                     if g.strip() != "panics=0":
                         out.append(viol(f"a call panicked while the executable was being swapped for a symlink loop: {op} -> {g}", [cops[0], op], [cgo[0], g]))
                     continue
+                if op.startswith("ex.repeat"):
+                    r = kv(g)
+                    if r.get("res") == "blocked" or r.get("slow", "0") != "0" or str(r.get("res", "")).startswith("panic"):
+                        out.append(viol(f"a command that keeps failing the same way stopped coming back in time after a few polls: {op} -> {g}",
+                                        [cops[0], op], [cgo[0], g]))
+                    continue
                 if op.startswith("ex.userpair"):
                     r = kv(g)
                     for side in ("a", "b"):
